@@ -64,12 +64,14 @@ def parseSimpOp : String → Option SimpOp
   | "eq" => some .eq | "ne" => some .ne | "gt" => some .gt | "lt" => some .lt
   | "ge" => some .ge | "le" => some .le | _ => none
 
-/-- `m` rows of `n` integers -/
-def takeRows (n : Nat) : Nat → List String → Option (List (List Int) × List String)
+/-- `m` rows, each written as its length followed by its values -/
+def takeRows : Nat → List String → Option (List (List Int) × List String)
   | 0, ws => some ([], ws)
   | m+1, ws => do
-    let (row, r) ← takeInts n ws
-    let (rows, r) ← takeRows n m r
+    let (len :: ws) := ws | none
+    let len ← len.toNat?
+    let (row, r) ← takeInts len ws
+    let (rows, r) ← takeRows m r
     pure (row :: rows, r)
 
 /-- parse a propagator kind -/
@@ -121,8 +123,8 @@ def parsePK (ws : List String) : Option PK :=
     let n ← n.toNat?; let (xs, r) ← takeNats n r
     let (m :: r) := r | none
     let m ← m.toNat?
-    let (ts, _) ← takeRows n m r
-    pure (.table xs ts)
+    let (ts, _) ← takeRows m r
+    pure (PK.mkTable xs ts)
   | "ite" :: cop :: cv :: cval :: top :: tv :: tval :: r => do
     let cop ← parseCondOp cop; let cv ← cv.toNat?; let cval ← parseInt? cval
     let top ← parseSimpOp top; let tv ← tv.toNat?; let tval ← parseInt? tval
